@@ -87,7 +87,7 @@ def exotic_valuations():
     return out
 
 
-GLOBALS_SRC = "G = 7\nGL = [4, 0]\nx = 100\nxs = [9, 9]\nC = 50\nCL = [7, 7, 7]\nclass _Imp:\n    def __repr__(self):\n        return 'IMPOSSIBLE'\nIMPOSSIBLE = _Imp()\ndef ident(v):\n    return v\ndef add(a, b=0, *rest, k=0):\n    return a + b + sum(rest) + k\n"
+GLOBALS_SRC = "G = 7\nGW = 7\nGL = [4, 0]\nx = 100\nxs = [9, 9]\nC = 50\nCL = [7, 7, 7]\nclass _Imp:\n    def __repr__(self):\n        return 'IMPOSSIBLE'\nIMPOSSIBLE = _Imp()\ndef ident(v):\n    return v\ndef add(a, b=0, *rest, k=0):\n    return a + b + sum(rest) + k\n"
 CLOSURE = {"C": 5, "CL": [1]}
 # parameters of the decorated FUNCTION (with these defaults) that no condition takes as a parameter although the conditions use
 # the names: inside a condition G and GL are the module globals (7, [4, 0]), whatever the function was called with
@@ -141,6 +141,9 @@ PRODS = {
         ("isinstance({0}, int)", ["int"]), ("bool({0})", ["int"]), ("{0} == {1}", ["list", "list"]), ("{0} == {1}", ["str", "str"]),
         ("{0} in {1}", ["str", "dict"]), ("bool({0})", ["list"]), ("{0} == len({1})", ["int", "list"]), ("{0}.startswith({1})", ["str", "str"]),
         ("ident({0})", ["bool"]),
+        # a named expression inside a comprehension binds in the scope of the lambda: afterwards GW is NOT the module global (7)
+        ("(any((GW := v) > {0} for v in {1}) and GW > 1)", ["int", "list"]),
+        ("((GW := {0}) > 1 and GW + 1 > {1})", ["int", "int"]),
     ],
     "list": [
         ("[{0}, {1}]", ["int", "int"]), ("{0} + {1}", ["list", "list"]), ("{0}[{1}:]", ["list", "int"]), ("{0}[:{1}]", ["list", "int"]),
@@ -291,6 +294,7 @@ class _Wrap(ast.NodeTransformer):
     def __init__(self, text):
         self.text = text
         self.info = []
+        self.comp_walrus = set()  # targets of named expressions bound INSIDE a comprehension (local to the lambda)
         self.in_comp = 0
         self.in_first_iter = 0
         self.in_fstring = 0
@@ -346,6 +350,8 @@ class _Wrap(ast.NodeTransformer):
                     self.in_comp -= 1
                 return self._w(node, node)
             if isinstance(node, ast.NamedExpr):
+                if self.in_comp > 0:
+                    self.comp_walrus.add(node.target.id)
                 node.value = self.visit(node.value)
                 return self._w(node, node)
             if isinstance(node, ast.Call):
@@ -388,7 +394,9 @@ def record(text, env):
         result = eval(code, g)
     except Exception as e:  # the expression itself raises under CPython for this valuation
         error = e
-    return Recording(text, w.info, values, result, error)
+    r = Recording(text, w.info, values, result, error)
+    r.comp_walrus = w.comp_walrus
+    return r
 
 
 # ---------------------------------------------------------------------------------------------
